@@ -8,7 +8,9 @@
    A project is a finite description of what the Sphinx environment holds after
    reading (oracle O_sphinx_env).  Executable definitions only. *)
 From Coq Require Import List NArith Bool.
-From MV Require Import Base.PyStr XRef.Path.
+From MV Require Import Base.PyStr.
+From MV Require Import XRef.Path.
+From MV Require Import Gen.C12Links.
 Import ListNotations.
 Open Scope N_scope.
 
@@ -78,7 +80,7 @@ Fixpoint is_prefix (p l : list str) : bool :=
 Definition is_file (P : project) (loc : fsloc) : bool :=
   match loc with
   | Inside rel => mem_path rel (p_files P)
-  | Outside _ _ => false
+  | Outside _ => false
   end.
 
 (* os.access(f, R_OK) in Sphinx's DownloadFileCollector: files and directories *)
@@ -87,7 +89,7 @@ Definition is_readable (P : project) (loc : fsloc) : bool :=
   | Inside rel => mem_path rel (p_files P)
                   || existsb (fun f => is_prefix rel f) (p_files P)
                   || is_nil rel
-  | Outside abs dbl => negb dbl && is_prefix abs (p_srcdir P)
+  | Outside abs => is_prefix abs (p_srcdir P)
   end.
 
 (* ---------- small string helpers ---------- *)
@@ -130,7 +132,7 @@ Definition nonempty (s : str) : bool := negb (is_nil s).
 Definition abs_str (P : project) (loc : fsloc) : str :=
   match loc with
   | Inside rel => c_slash :: join s_slash (p_srcdir P ++ rel)
-  | Outside abs dbl => (if dbl then [c_slash; c_slash] else s_slash) ++ join s_slash abs
+  | Outside abs => s_slash ++ join s_slash abs
   end.
 
 (* ---------- the link token and the renderer's classification ---------- *)
@@ -156,7 +158,7 @@ Definition split_dest (dest : str) : str * option str := (before c_hash dest, af
 
 Definition render_link_project (P : project) (d : docrec) (l : link) : cls :=
   let href := l_dest l in
-  let dest := if startswith href (s_project ++ [c_colon]) then skipn 8 href else href in
+  let dest := if startswith href (fst gen_project_prefix) then skipn (snd gen_project_prefix) href else href in
   if startswith dest s_hash then C_anchor dest
   else
     let '(path_dest, path_id) := split_dest dest in
@@ -168,7 +170,7 @@ Definition render_link_project (P : project) (d : docrec) (l : link) : cls :=
 
 Definition render_link_path (P : project) (d : docrec) (l : link) : cls :=
   let href := l_dest l in
-  let dest := if startswith href (s_path ++ [c_colon]) then skipn 5 href else href in
+  let dest := if startswith href (fst gen_path_prefix) then skipn (snd gen_path_prefix) href else href in
   C_download dest dest.
 
 Definition render_link_unknown (P : project) (d : docrec) (l : link) : cls :=
@@ -350,7 +352,7 @@ Section Resolver.
         | Some e =>
             mk (T_refid (sl_id e))
                (if explicit then X_children
-                else if nonempty (sl_title e) then X_str (sl_title e) else X_none) []
+                else if nonempty (sl_title e) then X_str (sl_title e) else X_str (c_hash :: target)) []
         | None => resolve_any P (d_name d) explicit target
         end
     end.
